@@ -116,6 +116,77 @@ def raw_libraries(max_classes=5, max_funcs=5):
 
 # ---- model ------------------------------------------------------------------------------------------------
 
+# ---- a class template whose instantiations are exported through typedefs (C01 / C03 / C11) --------------------------
+
+TEMPLATE_HEADER = """
+#ifndef CPPPARSER
+#define VFT_LOG(label, argstr, retstr) vf_emit(std::string("CALL " label " this=") + vf_o(this) + " args=[" + (argstr) + "] -> " + (retstr))
+#else
+#define VFT_LOG(label, argstr, retstr)
+#endif
+template<class T, int N = 2>
+class VfBox {
+PUBLISHED:
+  VfBox() : _v() {}
+  VfBox(T v) : _v(v) { VFT_LOG("T0#0", vf_v(v), std::string("ctor")); }
+  T get_v() const { VFT_LOG("T1#0", std::string(""), vf_v(_v)); return _v; }
+  void set_v(T v) { _v = v; vf_acc += 1; VFT_LOG("T2#0", vf_v(v), std::string("void")); }
+  T add(T a, T b = N) const { T r = (T)(_v + a + b); VFT_LOG("T3#0", vf_v(a) + "," + vf_v(b), vf_v(r)); return r; }
+  VfBox<T, N> *self() { VFT_LOG("T4#0", std::string(""), vf_o(this)); return this; }
+  static int count() { return N; }
+  T _v;
+#ifndef CPPPARSER
+public:
+  VfLife vf_life;
+  long vf_acc = 0;
+#endif
+};
+BEGIN_PUBLISH
+typedef VfBox<int> VfBoxInt;
+typedef VfBox<double, 3> VfBoxDouble;
+typedef VfBox<unsigned char> VfBoxByte;
+int vf_use_box(const VfBoxInt &b, VfBoxDouble *d = nullptr);
+END_PUBLISH
+"""
+
+TEMPLATE_IMPL = """
+int vf_use_box(const VfBoxInt &b, VfBoxDouble *d) {
+  int r = b._v * 2 + (d ? (int)d->_v : -1);
+  vf_emit(std::string("CALL T5#0 this=- args=[") + vf_o(&b) + "," + vf_o(d) + "] -> " + vf_v(r));
+  return r;
+}
+extern "C" {
+__attribute__((visibility("default"))) const char *vf_desc_K9001(const void *p) { static std::string s; const VfBoxInt *o = (const VfBoxInt *)p; s = o ? vf_o(o) + ":" + std::to_string(o->vf_acc) : std::string("nil"); return s.c_str(); }
+__attribute__((visibility("default"))) const char *vf_desc_K9002(const void *p) { static std::string s; const VfBoxDouble *o = (const VfBoxDouble *)p; s = o ? vf_o(o) + ":" + std::to_string(o->vf_acc) : std::string("nil"); return s.c_str(); }
+__attribute__((visibility("default"))) const char *vf_desc_K9003(const void *p) { static std::string s; const VfBoxByte *o = (const VfBoxByte *)p; s = o ? vf_o(o) + ":" + std::to_string(o->vf_acc) : std::string("nil"); return s.c_str(); }
+}
+"""
+
+
+def template_classes():
+    """model of the instantiations above: class dicts (qname = the name the database uses) and their callables"""
+    out = []
+    for cid, qn, tn, tdname in ((9001, "VfBox< int, 2 >", "int", "VfBoxInt"), (9002, "VfBox< double, 3 >", "double", "VfBoxDouble"), (9003, "VfBox< unsigned char, 2 >", "unsigned char", "VfBoxByte")):
+        short = qn.replace(", 2 >", " >")
+        c = {"id": cid, "kind": "class", "name": tdname, "qname": tdname, "dbname": qn, "aliases": [tdname, qn, short], "bases": [], "members": [], "file": "main",
+             "inpub": True, "tmpl": True}
+        t = Type("prim", tn)
+        calls = [dict(kind="ctor", cls=c, ent=None, ov=0, fname=qn + "::VfBox", params=[], ndef=0, ret=None, label=None),
+                 dict(kind="ctor", cls=c, ent=None, ov=1, fname=qn + "::VfBox", params=[t], ndef=0, ret=None, label="T0#0"),
+                 dict(kind="method", cls=c, ent={"ovs": [1]}, ov=0, fname=qn + "::get_v", params=[], ndef=0, ret=t, const=True, name="get_v"),
+                 dict(kind="method", cls=c, ent={"ovs": [1]}, ov=0, fname=qn + "::set_v", params=[t], ndef=0, ret=Type("void"), const=False, name="set_v"),
+                 dict(kind="method", cls=c, ent={"ovs": [1]}, ov=0, fname=qn + "::add", params=[t, t], ndef=1, ret=t, const=True, name="add"),
+                 dict(kind="method", cls=c, ent={"ovs": [1]}, ov=0, fname=qn + "::self", params=[], ndef=0, ret=Type("obj", mode=3, ref=c), const=False, name="self"),
+                 dict(kind="static", cls=c, ent={"ovs": [1]}, ov=0, fname=qn + "::count", params=[], ndef=0, ret=Type("prim", "int"), name="count")]
+        for call in calls:
+            call["fnames"] = [a + "::" + call["fname"].split("::")[-1] for a in c["aliases"][1:]]
+        out.append((c, calls))
+    ci, cd = out[0][0], out[1][0]
+    free = dict(kind="func", cls=None, ent={"ovs": [1]}, ov=0, fname="vf_use_box", params=[Type("obj", mode=2, ref=ci), Type("obj", mode=3, ref=cd)], ndef=1,
+                ret=Type("prim", "int"), name="vf_use_box")
+    return out, [free]
+
+
 def with_arith_family(raw, pairs=False):
     """adds two free functions overloaded over the arithmetic types at one position (narrow next to wide: short/int/long long,
     float/double, the char kinds, bool): wrappers must keep the declared parameter type or the wrong overload runs"""
